@@ -25,6 +25,7 @@
 */
 #include <setjmp.h>
 #include <signal.h>
+#include <sys/time.h>
 #include <unistd.h>
 #include <stdio.h>
 #include <stdlib.h>
@@ -110,14 +111,16 @@ static void dump(void)
     printf("\n");
 }
 
-/* watchdog: an op that does not return within 5 s (a walk that never advances) ends the process with a HANG line */
+/* watchdog: an op that does not return within 3 s of CPU time (a walk that never advances) ends the process with a HANG line */
 static void on_alarm(int sig) { (void)sig; fflush(stdout); (void)!write(1, "\nHANG\n", 6); _exit(9); }
+/* CPU time of this process, not wall-clock: a loaded machine must not look like a hang */
+static void watchdog(int seconds) { struct itimerval t = { { 0, 0 }, { seconds, 0 } }; setitimer(ITIMER_PROF, &t, 0); }
 
 int main(void)
 {
     static char line[1 << 16];
     setvbuf(stdout, 0, _IOLBF, 1 << 16);
-    signal(SIGALRM, on_alarm);
+    signal(SIGPROF, on_alarm);
     if (sizeof(struct VideoFrame) != 96 || offsetof(struct VideoFrame, bytes_of_frame) != 0 || offsetof(struct VideoFrame, data) != 96) {
         printf("FATAL sizeof(struct VideoFrame)=%zu\n", sizeof(struct VideoFrame));
         return 4;
@@ -126,7 +129,7 @@ int main(void)
         long long a[12] = { 0 };
         int pos = 0;
         if (line[0] == '\n' || line[0] == '#') continue;
-        alarm(5);
+        watchdog(3);
         if (sscanf(line, "bot %lld", &a[0]) == 1) {
             printf("bot %zu\n", bytes_of_type((enum SampleType)(int)a[0]));
         } else if (sscanf(line, "img %lld %lld %lld %lld %lld %lld %lld %lld %lld", &a[0], &a[1], &a[2], &a[3], &a[4], &a[5], &a[6], &a[7], &a[8]) == 9) {
@@ -243,6 +246,7 @@ int main(void)
         } else {
             printf("BADOP %s", line);
         }
+        watchdog(0);
     }
     fflush(stdout);
     return 0;
